@@ -158,6 +158,55 @@ func oracleC11(op string, args []string) string {
 				return fmt.Sprintf("FAIL after op %d: a read changed the value", i)
 			}
 		}
+		// the same history with no read other than the script's own: every prefix replayed on a fresh counter and read once at
+		// its end, in the three read orders (a read that normalises the stored word would otherwise hide what the operations
+		// left behind)
+		for i := range l {
+			for order := 0; order < 3; order++ {
+				var c security.Count
+				var ovf, sqn uint32
+				for _, o := range l[:i+1] {
+					switch o.k {
+					case "set":
+						c.Set(uint16(o.a), uint8(o.b))
+						ovf, sqn = uint32(o.a), uint32(o.b)
+					case "sqn":
+						c.SetSQN(uint8(o.a))
+						sqn = uint32(o.a)
+					case "ovf":
+						c.SetOverflow(uint16(o.a))
+						ovf = uint32(o.a)
+					case "inc":
+						c.AddOne()
+						v := (ovf*256 + sqn + 1) % (1 << 24)
+						ovf, sqn = v>>8, v&0xff
+					case "get":
+						c.Get()
+					case "rsqn":
+						c.SQN()
+					case "rovf":
+						c.Overflow()
+					}
+				}
+				var g, sq, ov uint32
+				switch order {
+				case 0:
+					g, sq, ov = c.Get(), uint32(c.SQN()), uint32(c.Overflow())
+				case 1:
+					sq, ov = uint32(c.SQN()), uint32(c.Overflow())
+					g = c.Get()
+				case 2:
+					ov, g, sq = uint32(c.Overflow()), c.Get(), uint32(c.SQN())
+				}
+				if g >= 1<<24 || g != ovf*256+sqn || sq != sqn || ov != ovf {
+					return fmt.Sprintf("FAIL after the first %d ops (read once, order %d): Get()=%#x Overflow()=%d SQN()=%d, expected %d/%d",
+						i+1, order, g, ov, sq, ovf, sqn)
+				}
+				if g2 := c.Get(); g2 != g {
+					return fmt.Sprintf("FAIL after the first %d ops: a second Get() returns %#x after %#x", i+1, g2, g)
+				}
+			}
+		}
 		return "pass"
 	case "cntwalk":
 		st, e1 := strconv.ParseUint(args[0], 10, 24)
@@ -215,6 +264,30 @@ func genCounter(g *Gen, w *bufio.Writer) {
 			case 8:
 				parts = append(parts, "rovf")
 			}
+		}
+		fmt.Fprintf(w, "cnt %s\n", strings.Join(parts, ";"))
+	}
+	// several wrap-arounds in one history, the counter put back near the top by each kind of setter, no read in between
+	for i := 0; i < 60; i++ {
+		var parts []string
+		parts = append(parts, "set:65535:255", "inc")
+		for k := 1 + g.Intn(4); k > 0; k-- {
+			switch g.Intn(4) {
+			case 0:
+				parts = append(parts, "set:65535:255")
+			case 1:
+				parts = append(parts, "ovf:65535", "sqn:255")
+			case 2:
+				parts = append(parts, "sqn:255", "ovf:65535")
+			case 3:
+				parts = append(parts, "ovf:65535", fmt.Sprintf("sqn:%d", 253+g.Intn(3)), "inc")
+			}
+			for j := g.Intn(3); j >= 0; j-- {
+				parts = append(parts, "inc")
+			}
+		}
+		if i%3 == 0 {
+			parts = append(parts, []string{"rsqn", "rovf", "get"}[g.Intn(3)])
 		}
 		fmt.Fprintf(w, "cnt %s\n", strings.Join(parts, ";"))
 	}
